@@ -82,7 +82,9 @@ Definition c18_spec_ok (c : c18_case) : bool :=
   match c_in c with
   | InFormal b t false _ _ intent bg bo =>
       match c_out c with
-      | OGens l => lists_set_eqb l (mingens_spec t intent (default [] bg) (default (all_objs t) bo))
+      (* a returned listing may repeat the attributes the base generator repeats: compared as sets of sets *)
+      | OGens l => lists_set_eqb (map (canon_set (width t)) l)
+                                 (mingens_spec t intent (default [] bg) (default (all_objs t) bo))
       | _ => false
       end
   | InFormal b t true on an intent bg bo =>
